@@ -8,10 +8,11 @@ pub mod mpsc {
     #[verifier::external_body]
     #[verifier::accept_recursive_types(T)]
     pub struct Receiver<T> { _p: core::marker::PhantomData<T> }
-    // tokio::sync::mpsc::channel panics if the buffer capacity is 0
+    // tokio::sync::mpsc::channel panics if the buffer capacity is 0 or above Semaphore::MAX_PERMITS (usize::MAX >> 3)
+    // (the upper bound was missing; found by stubcheck)
     #[verifier::external_body]
     pub fn channel<T>(buffer: usize) -> (r: (Sender<T>, Receiver<T>))
-        requires buffer > 0
+        requires 0 < buffer <= (usize::MAX >> 3)
     { unimplemented!() }
 }
 #[verifier::external_body]
